@@ -62,6 +62,8 @@ inline std::vector<PVal> paramMenu() {
     // a parameter that went through a REFUSED reshape before it is handed over (the refused call must have left it as it was)
     m.push_back({"i2r", [](Param& p) { p.set(std::vector<int>() = {4, 5}); try { p.set(std::vector<int>() = {4, 5}, {30}); } catch (const std::range_error&) { } }});
     m.push_back({"f2r", [](Param& p) { p.set(std::vector<float>() = {4.5f, 5.5f}); try { p.set(std::vector<float>() = {4.5f, 5.5f}, {3, 7}); } catch (const std::range_error&) { } try { p.set(std::vector<std::string>() = {"a"}, {5}); } catch (const std::range_error&) { } }});
+    m.push_back({"fsnan", [](Param& p) { p.set(bitsf(0x7fa00000u)); }});    // scalar overloads with a SIGNALLING NaN (an arithmetic conversion on the way would quiet it)
+    m.push_back({"dsnan", [](Param& p) { p.set(std::vector<float>() = {bitsf(0x7fa00001u), bitsf(0xffa00000u)}); }});
     m.push_back({"s11", [](Param& p) { p.set(std::vector<std::string>() = {"solo"}, {1, 1}); }});
     return m;
 }
